@@ -203,6 +203,7 @@ PROPS['C18']={
  'obligations':[
    {'name':'apply_left_strip','module':'harness.C18','cls':'LeftStrip','quick':{'plen':3,'nprefix':2},'thorough':{'plen':4,'nprefix':3}},
    {'name':'record_artifacts','module':'harness.C18','cls':'Record','quick':{'flen':2,'nlinks':3},'thorough':{'flen':2,'nlinks':6},'validate':{'quick':12,'thorough':48}},
+   {'name':'record_artifacts_linked_directories','module':'harness.C18','cls':'RecordLinkedDirectories','quick':{},'thorough':{},'validate':{'quick':64,'thorough':400}},
    {'name':'in_toto_run_sequencing','module':'harness.C18','cls':'RunSequencing','quick':{},'thorough':{}},
    {'name':'in_toto_run_on_a_changing_tree','module':'harness.C18','cls':'RunOnGhostFS','quick':{},'thorough':{}},
  ]}
